@@ -324,6 +324,14 @@ def search(ctx):
 
 def deep_witness(w):
     n = int(w.get("n", 3000))
+    if w.get("shape") == "dag-tuple":
+        return ("start :: fn do\n    v0 := (1, 2)\n" + "".join("    v%d := (v%d, v%d)\n" % (i, i - 1, i - 1) for i in range(1, n + 1))
+                + "    v%d + 1\nend\n" % n)
+    if w.get("shape") == "nested-callbacks":
+        return ("f :: fn g: fn -> void do g() end\nstart :: fn do\n" + "".join("  " * (i + 1) + "f(fn do\n" for i in range(n))
+                + "  " * (n + 1) + "x := 1\n" + "".join("  " * (n - i) + "end)\n" for i in range(n)) + "end\n")
+    if w.get("shape") == "enum-variants":
+        return "E :: enum\n" + "".join("    V%d,\n" % i for i in range(n)) + "end\nstart :: fn do end\n"
     if w.get("shape") == "sum":
         return "start :: fn do\n  x := " + " + ".join(["1"] * n) + "\nend\n"
     return "start :: fn do\n  x := " + "(" * n + "1" + ")" * n + "\nend\n"
@@ -362,10 +370,16 @@ def replay_known(ctx, kf):
     with tempfile.TemporaryDirectory(dir=os.path.join(vlib.BUILD, "tmp")) as td:
         src = os.path.join(td, "deep.sy")
         open(src, "w").write(deep_witness(w))
+        slow = w.get("shape") in ("dag-tuple", "nested-callbacks")
+        import time as _t
+        t0 = _t.time()
         try:
-            p = subprocess.run([exe, "--no-std", "-o", os.path.join(td, "deep.lua"), src], capture_output=True, timeout=120)
+            p = subprocess.run([exe, "--no-std", "-o", os.path.join(td, "deep.lua"), src], capture_output=True, timeout=20 if slow else 120,
+                               preexec_fn=vlib._limit_memory)
         except subprocess.TimeoutExpired:
             return True
+        if slow:
+            return _t.time() - t0 > 10 or p.returncode < 0 or p.returncode == 134
     return p.returncode < 0 or p.returncode == 134
 
 
